@@ -1,7 +1,7 @@
 // Correspondence harness for C14: Array, String, StringStream, StringView driven by whole test
 // programs (one program per line, a table of three objects per program).
 //
-//   seq-array  <i|s> <op;op;...>      Array<int> / Array<String<char>>
+//   seq-array  <i|s|p> <op;op;...>    Array<int> / Array<String<char>> / Array<Plain> (trivially copyable, non-zero default)
 //   seq-string <1|2|4> <op;...>       String<char|char16_t|char32_t>
 //   seq-stream <1|2|4> <x|s> <op;...> StringStream<...>; x = exact-fit hook build, s = shipped policy
 //   seq-view   <1|2|4> <op;...>       StringView<...>
@@ -45,6 +45,17 @@ template <typename T> struct Elem;
 template <> struct Elem<int> {
     static int  enc(U64 x) { return int(x); }
     static U64  dec(const int &e) { return U64(unsigned(e)); }
+};
+// A trivially copyable item type whose value-initialised state is NOT all-zero bytes (default member
+// initialisers, no user-provided constructor / destructor): `Type_T{}` must be constructed, not zero-filled.
+struct Plain {
+    int      x{7};
+    unsigned y{0x5A5A};
+};
+static_assert(__is_trivially_copyable(Plain), "Plain must be trivially copyable");
+template <> struct Elem<Plain> {
+    static Plain enc(U64 v) { Plain p; p.x = int(v) + 7; return p; }
+    static U64   dec(const Plain &e) { return (e.y != 0x5A5A) ? 999999999ULL : U64(unsigned(e.x - 7)); }   // Plain{} is item 0
 };
 template <> struct Elem<String<char>> {
     static String<char> enc(U64 x) {
@@ -525,6 +536,7 @@ int main() {
                 auto ops = vh::split(t[2], ';');
                 if (t[1] == "i") vh::emit(run_array<int>(ops));
                 else if (t[1] == "s") vh::emit(run_array<String<char>>(ops));
+                else if (t[1] == "p") vh::emit(run_array<Plain>(ops));
                 else vh::emit("bad-op");
             } else if (t.size() == 3 && t[0] == "seq-string") {
                 auto ops = vh::split(t[2], ';');
